@@ -189,11 +189,15 @@ struct ApiScope {
         if (want_snap) snap0 = snapshot();
         if (on("C07") && !strcmp(name, "ctx_dereg")) {
             bool known;
-            W->c07_looping_at_entry = ctx_is_looping_probe(&known);
+            (void)known;
+            W->c07_looping_at_entry = W->ctx_looping;   // model: looping until the loop call / stopping dispatch call has returned
             W->c07_active_before.clear();
-            for (auto &sl : W->slots) if (sl.st == ST_RUNNING || sl.st == ST_PAUSED) W->c07_active_before[sl.idx] = sl.n_cb[CB_STOP];
+            W->c07_edges_before.clear();
+            for (auto &sl : W->slots) if (sl.st == ST_RUNNING || sl.st == ST_PAUSED) { W->c07_active_before[sl.idx] = sl.n_cb[CB_STOP]; W->c07_edges_before[sl.idx] = sl.leave_active; }
         }
         Frame f;
+        f.had_ctx_at_entry = W->has_ctx;
+        f.ctx_gen_at_entry = W->ctx_registrations;
         f.name = name;
         f.slot = slot;
         f.gseq = R->gseq;
@@ -418,10 +422,12 @@ static void loop_end(int rc) {
         for (int e : sd.eligible)
             if (!sd.in_flush && !sd.delivered.count(e) && W->slots[e].st == ST_PAUSED) sd.dead.insert(e);
     orc_loop_end(lr);
-    // the context may have been released with its last module
-    bool known;
-    ctx_is_looping_probe(&known);
-    if (!known) W->has_ctx = false;
+    // model: a non-persistent context left without modules is released when the loop returns
+    if (W->has_ctx && !(W->ctx_flags & M_CTX_PERSIST)) {
+        int left = 0;
+        for (auto &o : W->slots) if (o.ctx_gen == W->ctx_registrations && o.st != ST_NONE && o.st != ST_ZOMBIE) left++;
+        if (left == 0) W->has_ctx = false;
+    }
 }
 
 static int do_dispatch_once() {
@@ -692,6 +698,13 @@ void exec_op(const Op &op, bool in_cb, int cb_slot) {
         }
         a.done(rc);
         sim::tr("dereg", m, rc);
+        if (rc == 0 && W->has_ctx && !(W->ctx_flags & M_CTX_PERSIST) && !W->ctx_looping && s.ctx_gen == W->ctx_registrations) {
+            // model: an idle non-persistent context is released with its last module
+            int left = 0;
+            for (auto &o : W->slots) if (o.ctx_gen == W->ctx_registrations && o.st != ST_NONE && o.st != ST_ZOMBIE) left++;
+            bool in_ctx_dereg = frame_on_stack_any("ctx_dereg");
+            if (left == 0 && !in_ctx_dereg) W->has_ctx = false;
+        }
         return;
     }
     if (n == "start" || n == "pause" || n == "resume" || n == "stop") {
@@ -1100,13 +1113,13 @@ static void do_send(int kind, int from, int to, long topic_idx, bool autofree, i
         if (full_after > full_before) { sd.overflow = sd.eligible; R->ctr.probe("send_hit_full_pipe"); }
         if (rc != 0) {
             sd.eligible.clear();
-            if (sd.autofree && R->a.is_live(sd.payload)) { W->payload2send.erase(sd.payload); sk_free((void *)sd.payload); sd.payload = nullptr; }
         } else if (kind == 3) {
             if (W->slots[to].pills_pending == 0) W->slots[to].pending_pill_first_gseq = sd.gseq;
             W->slots[to].pills_pending++;
             W->slots[to].pending_pill_gseq = sd.gseq;
         }
         a.done(rc);
+        if (rc != 0 && sd.autofree && sd.payload && R->a.is_live(sd.payload)) { W->payload2send.erase(sd.payload); sk_free((void *)sd.payload); sd.payload = nullptr; }   // refused: the payload stays ours
         if (count == 1) sim::tr(kind == 0 ? "tell" : kind == 1 ? "pub" : kind == 2 ? "bcast" : "pill", from, to, rc);
         orc_send(sd);
     }
